@@ -78,7 +78,7 @@ def clean_cfg_run(n: TSNode) -> Bool:
 
 
 # ------------------------------------------------------------------ rust_context.py
-@contract(C + "_get_node_text", props=["C17"], types=dict(node=TSNode), returns=Str)
+@contract(C + "_get_node_text", props=["C17", "C02"], types=dict(node=TSNode), returns=Str)
 class GetNodeText:
     def requires(node):
         return node is not None
@@ -87,7 +87,7 @@ class GetNodeText:
         return node_text(node)
 
 
-@contract(C + "has_test_attribute", props=["C17"], types=dict(function_node=TSNode, prev_sibling=TSNode), returns=Bool)
+@contract(C + "has_test_attribute", props=["C17", "C02"], types=dict(function_node=TSNode, prev_sibling=TSNode), returns=Bool)
 class HasTestAttribute:
     def requires(function_node):
         return function_node is not None
@@ -109,7 +109,7 @@ class HasTestAttribute:
         return -1 if prev_sibling is None else ts_sibling_index(prev_sibling)
 
 
-@contract(C + "has_cfg_test_attribute", props=["C17"], types=dict(mod_node=TSNode, prev_sibling=TSNode), returns=Bool)
+@contract(C + "has_cfg_test_attribute", props=["C17", "C02"], types=dict(mod_node=TSNode, prev_sibling=TSNode), returns=Bool)
 class HasCfgTestAttribute:
     def requires(mod_node):
         return mod_node is not None
@@ -154,7 +154,7 @@ def test_module_as_documented(mod_node):
     return call(C + "has_cfg_test_attribute", mod_node) == doc_has_cfg_test_attr(mod_node.prev_sibling)
 
 
-@contract(C + "_is_test_context", props=["C17"], types=dict(node=TSNode), returns=Bool)
+@contract(C + "_is_test_context", props=["C17", "C02"], types=dict(node=TSNode), returns=Bool)
 class IsTestContext:
     def requires(node):
         return node is not None
@@ -163,7 +163,7 @@ class IsTestContext:
         return test_ctx_code(node)
 
 
-@contract(C + "is_inside_test", props=["C17"], types=dict(node=TSNode, current=TSNode), returns=Bool)
+@contract(C + "is_inside_test", props=["C17", "C02"], types=dict(node=TSNode, current=TSNode), returns=Bool)
 class IsInsideTest:
     def value(node):
         return inside_test_from(node)
@@ -238,7 +238,7 @@ class ExtractIdentifierName:
         return first_of_type(node.children, "identifier") == first_of_type(rest, "identifier")
 
 
-@contract(B + "RustBaseAnalyzer.is_inside_test", props=["C17"], types=dict(self=BaseT, node=TSNode), returns=Bool)
+@contract(B + "RustBaseAnalyzer.is_inside_test", props=["C17", "C02"], types=dict(self=BaseT, node=TSNode), returns=Bool)
 class BaseIsInsideTest:
     def value(self, node):
         return inside_test_from(node)
@@ -261,7 +261,7 @@ def _native_parse(code):
 rust_root = uf("rust_root", [Str], TSNode, concrete=_native_parse)   # the parse tree of a source text (parser trusted)
 
 
-@contract(B + "RustBaseAnalyzer.parse_rust", props=["C17"], types=dict(self=BaseT, code=Str), returns=Opt(TSNode),
+@contract(B + "RustBaseAnalyzer.parse_rust", props=["C17", "C02"], types=dict(self=BaseT, code=Str), returns=Opt(TSNode),
           assumed="tree-sitter parser (external): returns the root node of the parse tree of `code` (a function of the "
                   "text), or None when tree-sitter is unavailable; every C17 clause is decided modulo the parse tree")
 class ParseRust:
